@@ -2,6 +2,7 @@ package parser
 
 import (
 	"fmt"
+	"math"
 	"strconv"
 	"strings"
 
@@ -410,7 +411,16 @@ func (p *Parser) parseGroupedExpression() ast.Node {
 	return exp
 }
 
+// The smallest integer has no positive counterpart: -9223372036854775808 can't be read as minus an integer.
+const minIntDigits = "9223372036854775808"
+
 func (p *Parser) parsePrefixExpression() ast.Node {
+	if p.curToken.Type() == token.MINUS && p.peekTokenIs(token.INT) && p.peekToken.Literal() == minIntDigits {
+		p.nextToken()
+		lit := &ast.IntegerLiteral{Val: math.MinInt64}
+		lit.Token = token.Intern(token.INT, "-"+minIntDigits)
+		return lit
+	}
 	expression := &ast.PrefixExpression{}
 	expression.Token = p.curToken
 
